@@ -252,7 +252,7 @@ def run(rec):
             while True:
                 Pt = E1.add(Pt, G1m)
                 w = Z.enc_g1_word(Pt)
-                yield (lambda w=w: call(pc.decompress_G1, w))
+                yield (lambda w=w: (call(pc.decompress_G1, w), call(gp.pubkey_to_G1, w.to_bytes(48, "big"))))
         soak_then_reprobe(rec, "distinct-words", probes, distinct_words(), nso)
         if not quick:
             S0 = E2.mul(G2m, rng.randrange(1, params.BLS_R))
